@@ -330,6 +330,30 @@ theorem C06_blocking_write_is_poll (ops : List Op) (fu : Fut) (t base : Nat)
   exact C06_blocking_write_is_poll_partial _ fu t base hn
     (nr_single ops fu.id (Ev.has_iff.mpr ⟨e, he, ho⟩))
 
+/-- a thread parked in `RawUpgrade` (blocking strategy: `upgrade_blocking`) resumes -/
+def resumeUpgradeBlocking (s : Sys) (fu : Fut) (t : Nat) : RRes :=
+  let f := fu.id
+  -- `strategy.poll(listener)` returned: the entry is gone; next iteration: `state.load()`
+  let s1 := { s with nr := Ev.erase s.nr f }
+  if s.state = 1 then ⟨s1, { fu with stage := .done }, true, 60⟩      -- break; listener = None; Ready
+  else ⟨{ s1 with nr := Ev.setTask (Ev.listen s1.nr f) f t }, fu, false, 63⟩
+
+/-- **C06 (`upgrade_blocking` is covered).** -/
+theorem C06_blocking_upgrade_is_poll (ops : List Op) (fu : Fut) (t : Nat)
+    (hn : Ev.isNotified (run {} ops).nr fu.id = true) :
+    resumeUpgradeBlocking (run {} ops) fu t = pollUpgrade (run {} ops) fu t := by
+  obtain ⟨e, he, ho, _⟩ := Ev.isNotified_iff.mp hn
+  have hh : Ev.has (run {} ops).nr fu.id = true := Ev.has_iff.mpr ⟨e, he, ho⟩
+  have honly := nr_single ops fu.id hh
+  generalize run {} ops = s at *
+  unfold resumeUpgradeBlocking pollUpgrade
+  simp only [hn, hh, Bool.not_true, Bool.false_eq_true, if_false]
+  split
+  · simp [Sys.dropNr, Ev.drop, Ev.dropOwners, Ev.dropTasks, hn, honly, Ev.notify_nil,
+      Ev.notifyOwners, Ev.notifyTasks]
+    cases notifyK (Ev.addOf s.nr fu.id) 1 [] <;> simp [notifyO, notifyT]
+  · rfl
+
 /-- without `honly` the two differ: the poll forwards the notification, the resumed thread has
 consumed it (harmless only because no second waiter on `no_readers` can exist) -/
 example :
